@@ -70,6 +70,9 @@ type GateCM struct {
 	excess    []Excess
 	jitter    func() time.Duration
 	parkPlain map[string]bool // untagged methods that park on the gate as well
+	hookTime  time.Duration   // tagged calls take this long once the gate lets them pass (slow manager)
+	maxHook   time.Duration   // longest time a tagged call really spent sleeping
+	order     []Tag           // tags in the order their handlers entered
 }
 
 var _ syncer.ChainManager = (*GateCM)(nil)
@@ -110,6 +113,28 @@ func (g *GateCM) ParkMethods(methods ...string) {
 		g.parkPlain[m] = true
 	}
 	g.mu.Unlock()
+}
+
+// SetHookTime makes every tagged call take d inside the manager (outside any
+// stream I/O) after the gate let it pass.
+func (g *GateCM) SetHookTime(d time.Duration) {
+	g.mu.Lock()
+	g.hookTime = d
+	g.mu.Unlock()
+}
+
+// MaxHookTime returns the longest time a tagged call spent in the slow hook.
+func (g *GateCM) MaxHookTime() time.Duration {
+	g.mu.Lock()
+	defer g.mu.Unlock()
+	return g.maxHook
+}
+
+// EntryOrder returns the tags in the order their handlers reached the manager.
+func (g *GateCM) EntryOrder() []Tag {
+	g.mu.Lock()
+	defer g.mu.Unlock()
+	return append([]Tag(nil), g.order...)
 }
 
 // ReleaseTag lets the parked handler of one request go while the gate stays shut.
@@ -186,9 +211,20 @@ func (g *GateCM) tagged(t Tag, method string) (exit func()) {
 		g.excess = append(g.excess, Excess{"subnet", sub, n, g.perSubnet, method})
 	}
 	g.entered[t] = struct{}{}
+	g.order = append(g.order, t)
+	hook := g.hookTime
 	g.mu.Unlock()
 
 	done := g.G.ThroughKey(method+":tagged", tagKey(t), true)
+	if hook > 0 {
+		t0 := time.Now()
+		time.Sleep(hook)
+		g.mu.Lock()
+		if d := time.Since(t0); d > g.maxHook {
+			g.maxHook = d
+		}
+		g.mu.Unlock()
+	}
 	return func() {
 		// leave the per-peer / per-subnet books before the handler can go on
 		// to release its slots, so the observed count never exceeds the true
